@@ -55,6 +55,19 @@ SHAPE = {
 }
 
 
+def frames_judge(op, impl, model):
+    """Suite c20frames: the model is the frame protocol proved authentic over an ideal AEAD (frames_authentic /
+    frames_tamper_rejected: it accepts exactly the stream the writer produced, under the header bytes the writer hashed).
+    A script the model refuses is therefore a stream that was NOT produced by the writer (other header bytes, other
+    frames, other tail); a reader that answers ok to it has accepted tampered input - a failing input of C20, not only
+    a disagreement.  The converse (reader refuses what the model accepts) stays an ordinary disagreement."""
+    if impl.startswith("panic"):
+        return "reject panic " + impl[:80].replace(" ", "_")
+    if impl.startswith("ok") and model.strip().startswith("err"):
+        return "reject tampered-stream-accepted reader=%s protocol=%s" % (impl[:60].replace(" ", "_"), model.strip()[:60].replace(" ", "_"))
+    return "ok"
+
+
 def finding_key(suite, ops, line, msg):
     words = msg.split()
     cls = words[1] if len(words) > 1 else "reject"
@@ -182,7 +195,7 @@ SPEC = {
                      "Dawgs.Generated.C20_order", "Driver.C20", "Driver.C20Mon"],
     "suites": [
         {"name": "c20path", "model_suite": "c20path", "monitor_suite": "c20pathmon", "keep_prefix": 2},
-        {"name": "c20frames", "model_suite": "c20frames", "keep_prefix": 2},
+        {"name": "c20frames", "model_suite": "c20frames", "judge": frames_judge, "keep_prefix": 2},
         {"name": "c20", "monitor_suite": "c20mon", "keep_prefix": 2, "shrink_budget": 60, "thorough_seeds": 1},
     ],
     "nontrivial": nontrivial,
